@@ -208,6 +208,19 @@ def realize(world: World, classes: Any, renderers: Dict[str, Any], via_add: bool
             return _Sub.cache[name]
     C = _Sub(False)
     CS = _Sub(True)
+    share = bool(getattr(world, "share_notes", False))
+    note_cache: Dict[str, Any] = {}
+
+    def N(text: Any) -> Any:
+        """note argument of a constructor: None, or - when the world asks for it - ONE Note object handed to
+        every element that has this text (the constructors document that they take the note by value)"""
+        if not text:
+            return None
+        if not share:
+            return text
+        if text not in note_cache:
+            note_cache[text] = C0.Note(text)
+        return note_cache[text]
     real: Dict[str, Any] = dict(pre or {})
     pre = pre or {}
     m = world.m
@@ -228,7 +241,7 @@ def realize(world: World, classes: Any, renderers: Dict[str, Any], via_add: bool
         if isinstance(default, list):
             default = C.Expression(default[1])
         real[h] = C.Column(d["name"], ty, unique=d["unique"], not_null=d["not_null"], pk=d["pk"],
-                           autoinc=d["autoinc"], default=default, note=d["note"] or None,
+                           autoinc=d["autoinc"], default=default, note=N(d["note"]),
                            comment=d["comment"], properties=dict(d["properties"]) or None)
 
     def mk_index(h: str) -> Any:
@@ -242,7 +255,7 @@ def realize(world: World, classes: Any, renderers: Dict[str, Any], via_add: bool
             else:
                 subs.append(s[1])
         return C.Index(subs, name=d["name"], unique=d["unique"], type=d["type"], pk=d["pk"],
-                       note=d["note"] or None, comment=d["comment"])
+                       note=N(d["note"]), comment=d["comment"])
 
     for h in world.handles("index"):
         if h not in pre:
@@ -251,7 +264,7 @@ def realize(world: World, classes: Any, renderers: Dict[str, Any], via_add: bool
         if h in pre:
             continue
         d = m[h]
-        kw = dict(schema=d["schema"], alias=d["alias"], note=d["note"] or None, header_color=d["header_color"],
+        kw = dict(schema=d["schema"], alias=d["alias"], note=N(d["note"]), header_color=d["header_color"],
                   comment=d["comment"], abstract=d["abstract"], properties=dict(d["properties"]) or None)
         TC = (CS if d.get("subclass") else C).Table
         if d.get("ctor_cols", True):
